@@ -7,6 +7,10 @@
   The statements are about `TinkVerif.Gen.Polyval.*`, which the translator regenerates from the Go
   source on every check run (vlib/gen.py, entry "Polyval"); unsigned Go integers are `Nat` with an
   explicit `% 2^w` after every wrapping operation, `fieldElement` is a structure of two `Nat`s.
+  The generated text is alpha-normalised: parameters are `a0 a1` by position, auxiliary definitions
+  are `fn.v<k>` in canonical data-flow order (the comment in front of each function of the generated
+  file maps them to the Go locals; at the time of writing `mul64.v1 … v7` = a0, a1, b0, b1, lo, hi,
+  mid and `polyvalDot.v8` = r0 after the first reduction step).
   Core Lean only.
 -/
 import TinkVerif.Gen.Polyval
@@ -47,11 +51,11 @@ example : mul32 0xffffffff 0xffffffff = clmul 0xffffffff 0xffffffff 32 :=
 
 /-! ### (b) `mul64` -/
 
-theorem mul64_a0 (a b : Nat) : mul64.a0 a b = a % 2 ^ 32 := by
+theorem mul64_a0 (a b : Nat) : mul64.v1 a b = a % 2 ^ 32 := by
   show (a &&& (2 ^ 32 - 1)) % 2 ^ 32 = a % 2 ^ 32
   rw [Nat.and_two_pow_sub_one_eq_mod, Nat.mod_mod]
 
-theorem mul64_b0 (a b : Nat) : mul64.b0 a b = b % 2 ^ 32 := by
+theorem mul64_b0 (a b : Nat) : mul64.v3 a b = b % 2 ^ 32 := by
   show (b &&& (2 ^ 32 - 1)) % 2 ^ 32 = b % 2 ^ 32
   rw [Nat.and_two_pow_sub_one_eq_mod, Nat.mod_mod]
 
@@ -59,11 +63,11 @@ theorem shiftRight32_lt {a : Nat} (ha : a < 2 ^ 64) : a >>> 32 < 2 ^ 32 := by
   rw [Nat.shiftRight_eq_div_pow]
   exact Nat.div_lt_of_lt_mul ha
 
-theorem mul64_a1 (a b : Nat) (ha : a < 2 ^ 64) : mul64.a1 a b = a >>> 32 := by
+theorem mul64_a1 (a b : Nat) (ha : a < 2 ^ 64) : mul64.v2 a b = a >>> 32 := by
   show (a >>> 32) % 2 ^ 32 = a >>> 32
   exact Nat.mod_eq_of_lt (shiftRight32_lt ha)
 
-theorem mul64_b1 (a b : Nat) (hb : b < 2 ^ 64) : mul64.b1 a b = b >>> 32 := by
+theorem mul64_b1 (a b : Nat) (hb : b < 2 ^ 64) : mul64.v4 a b = b >>> 32 := by
   show (b >>> 32) % 2 ^ 32 = b >>> 32
   exact Nat.mod_eq_of_lt (shiftRight32_lt hb)
 
@@ -76,16 +80,16 @@ theorem mul64_eq_clmul (a b : Nat) (ha : a < 2 ^ 64) (hb : b < 2 ^ 64) :
   have lb0 : b % 2 ^ 32 < 2 ^ 32 := Nat.mod_lt _ (by decide)
   have la1 := shiftRight32_lt ha
   have lb1 := shiftRight32_lt hb
-  have hlo : mul64.lo a b = clmul (a % 2 ^ 32) (b % 2 ^ 32) 32 := by
-    unfold mul64.lo; rw [mul64_a0, mul64_b0, mul32_eq_clmul _ _ la0 lb0]
-  have hhi : mul64.hi a b = clmul (a >>> 32) (b >>> 32) 32 := by
-    unfold mul64.hi; rw [mul64_a1 a b ha, mul64_b1 a b hb, mul32_eq_clmul _ _ la1 lb1]
-  have hmid : mul64.mid a b = clmul (a % 2 ^ 32 ^^^ a >>> 32) (b % 2 ^ 32 ^^^ b >>> 32) 32 ^^^
+  have hlo : mul64.v5 a b = clmul (a % 2 ^ 32) (b % 2 ^ 32) 32 := by
+    unfold mul64.v5; rw [mul64_a0, mul64_b0, mul32_eq_clmul _ _ la0 lb0]
+  have hhi : mul64.v6 a b = clmul (a >>> 32) (b >>> 32) 32 := by
+    unfold mul64.v6; rw [mul64_a1 a b ha, mul64_b1 a b hb, mul32_eq_clmul _ _ la1 lb1]
+  have hmid : mul64.v7 a b = clmul (a % 2 ^ 32 ^^^ a >>> 32) (b % 2 ^ 32 ^^^ b >>> 32) 32 ^^^
       clmul (a % 2 ^ 32) (b % 2 ^ 32) 32 ^^^ clmul (a >>> 32) (b >>> 32) 32 := by
-    unfold mul64.mid
+    unfold mul64.v7
     rw [hlo, hhi, mul64_a0, mul64_b0, mul64_a1 a b ha, mul64_b1 a b hb,
       mul32_eq_clmul _ _ (Nat.xor_lt_two_pow la0 la1) (Nat.xor_lt_two_pow lb0 lb1)]
-  have h := mul64_core la0 la1 lb0 lb1 (mul64.mid a b) hmid
+  have h := mul64_core la0 la1 lb0 lb1 (mul64.v7 a b) hmid
   rw [← split_lo_hi a 32, ← split_lo_hi b 32, ← hlo, ← hhi] at h
   exact h
 
@@ -115,7 +119,7 @@ theorem polyvalDot_eq_spec (a b : fieldElement) (ha : feWf a) (hb : feWf b) :
   obtain ⟨hy, hy0, hy1⟩ := mul64_eq_clmul a.hi b.hi hahi hbhi
   obtain ⟨hm, hm0, hm1⟩ := mul64_eq_clmul (a.lo ^^^ a.hi) (b.lo ^^^ b.hi)
     (Nat.xor_lt_two_pow halo hahi) (Nat.xor_lt_two_pow hblo hbhi)
-  exact dot_core (t1 := (polyvalDot.r0_3 a b).hi) (lo := (polyvalDot a b).lo) (hi := (polyvalDot a b).hi)
+  exact dot_core (t1 := (polyvalDot.v8 a b).hi) (lo := (polyvalDot a b).lo) (hi := (polyvalDot a b).hi)
     halo hahi hblo hbhi hx0 hx1 hy0 hy1 hm0 hm1 hx hy hm rfl rfl rfl
 
 example : feWf ⟨0xffffffffffffffff, 0xffffffffffffffff⟩ := ⟨by decide, by decide⟩
